@@ -455,6 +455,11 @@ pub fn generate_io(seed: u64, instrs: &[String]) -> IoSc {
                         hserial += 1;
                         let mut m = gen_msg(&mut r, hserial);
                         m.header = vec![hserial];
+                        if r.chance(1, 12) {
+                            // a message without a header (the model compares whole messages)
+                            m.header = vec![];
+                            m.body = (0..(1 + hserial % 7)).map(|k| (hserial + k) % 3 == 0).collect();
+                        }
                         hosts.push((at, HostOp::Produce { msg: m, force: false }));
                     }
                 }
